@@ -229,9 +229,13 @@ def toErrorParams (cfg : Plumb.Cfg) (ps : List Param) : List Param :=
   effParams cfg [fName, errName] paramPrefix ps
 
 open Plumb in
+/-- the binder `err error` (the type id is outside the corpus table: no parameter has type `error`) -/
+def errBinder : Binder := { name := errName, ty := .val 1000000 }
+
+open Plumb in
 def toErrorTm (cfg : Plumb.Cfg) (ps0 : List Param) : Tm :=
   let ps := toErrorParams cfg ps0
-  .lam [{ name := errName, ty := .val 1000000 }, fBinder [ps] 1] (.lam (binders ps) (.call fName [names ps] true))
+  .lam [errBinder, fBinder [ps] 1] (.lam (binders ps) (.call fName [names ps] true))
 
 open Plumb in
 /-- compile prediction for toerror: the call `f(ps…)` resolves, the final `return …, err` still sees
